@@ -318,6 +318,12 @@ func main() {
 		}
 		sites = append(sites, scan(f, consts, canNil)...)
 	}
+	as, err := adapterSites(*repo)
+	if err != nil {
+		fmt.Fprintln(os.Stderr, "adapter sites:", err)
+		os.Exit(6)
+	}
+	sites = append(sites, as...)
 	sort.SliceStable(sites, func(i, j int) bool {
 		if sites[i].File != sites[j].File {
 			return sites[i].File < sites[j].File
@@ -556,4 +562,157 @@ func isConst(e ast.Expr, consts map[string]bool) bool {
 		return isConst(x.X, consts) && isConst(x.Y, consts)
 	}
 	return false
+}
+
+// ---- callee-error-panics-in-caller --------------------------------------------------------------------------------------
+// app.go hands adapter/bank.OverwriteBankKeeper to the cosmos-sdk gov and staking keepers.  Their code runs in EndBlock /
+// BeginBlock without recover and turns an error of an overridden method into panic(err).  For every method the adapter
+// overrides, every such caller site in the sdk packages that receive the adapter is listed, directly
+// (`err := k.bankKeeper.M(…); if err != nil { panic(err) }`) or through an error-returning wrapper
+// (`return k.bankKeeper.M(…)` in burnBondedTokens, whose callers panic).  The expression text carries the adapter method's own
+// error guards (the conditions of its `if` statements; NONE today): adding a check to the adapter changes the text, the
+// expectation no longer matches, and the new error return must be shown impossible for every caller again.
+var sdkAdapterUsers = []string{"x/gov/keeper", "x/staking/keeper"}
+
+func sdkDir(repo string) (string, error) {
+	b, err := os.ReadFile(filepath.Join(repo, "go.mod"))
+	if err != nil {
+		return "", err
+	}
+	ver := ""
+	for _, l := range strings.Split(string(b), "\n") {
+		f := strings.Fields(l)
+		if len(f) >= 2 && f[0] == "github.com/cosmos/cosmos-sdk" && strings.HasPrefix(f[1], "v") {
+			ver = f[1]
+		}
+	}
+	if ver == "" {
+		return "", fmt.Errorf("cosmos-sdk version not found in go.mod")
+	}
+	cache := os.Getenv("GOMODCACHE")
+	if cache == "" {
+		gp := os.Getenv("GOPATH")
+		if gp == "" {
+			gp = filepath.Join(os.Getenv("HOME"), "go")
+		}
+		cache = filepath.Join(gp, "pkg", "mod")
+	}
+	d := filepath.Join(cache, "github.com", "cosmos", "cosmos-sdk@"+ver)
+	if _, err := os.Stat(d); err != nil {
+		return "", err
+	}
+	return d, nil
+}
+
+func hasPanicErr(body *ast.BlockStmt) bool {
+	found := false
+	ast.Inspect(body, func(n ast.Node) bool {
+		if c, ok := n.(*ast.CallExpr); ok {
+			if id, ok := c.Fun.(*ast.Ident); ok && id.Name == "panic" {
+				found = true
+			}
+		}
+		return true
+	})
+	return found
+}
+
+func adapterSites(repo string) ([]Site, error) {
+	af, err := parser.ParseFile(fset, filepath.Join(repo, "adapter", "bank", "keeper.go"), nil, 0)
+	if err != nil {
+		return nil, err
+	}
+	guards := map[string]string{} // overridden method -> its own error guards
+	for _, d := range af.Decls {
+		fd, ok := d.(*ast.FuncDecl)
+		if !ok || fd.Body == nil || recvName(fd) != "OverwriteBankKeeper" {
+			continue
+		}
+		var conds []string
+		ast.Inspect(fd.Body, func(n ast.Node) bool {
+			if is, ok := n.(*ast.IfStmt); ok {
+				conds = append(conds, text(is.Cond))
+			}
+			return true
+		})
+		g := "NONE"
+		if len(conds) > 0 {
+			g = strings.Join(conds, " ; ")
+		}
+		guards[fd.Name.Name] = g
+	}
+	if len(guards) == 0 {
+		return nil, fmt.Errorf("no OverwriteBankKeeper methods found")
+	}
+	sdk, err := sdkDir(repo)
+	if err != nil {
+		return nil, err
+	}
+	var sites []Site
+	for _, pkg := range sdkAdapterUsers {
+		files, _ := filepath.Glob(filepath.Join(sdk, pkg, "*.go"))
+		sort.Strings(files)
+		type fnInfo struct {
+			file string
+			decl *ast.FuncDecl
+		}
+		var fns []fnInfo
+		for _, f := range files {
+			if strings.HasSuffix(f, "_test.go") {
+				continue
+			}
+			pf, err := parser.ParseFile(fset, f, nil, 0)
+			if err != nil {
+				return nil, err
+			}
+			for _, d := range pf.Decls {
+				if fd, ok := d.(*ast.FuncDecl); ok && fd.Body != nil {
+					fns = append(fns, fnInfo{"cosmos-sdk/" + pkg + "/" + filepath.Base(f), fd})
+				}
+			}
+		}
+		// direct calls bankKeeper.M(...)
+		wrappers := map[string]string{} // wrapper function name -> method
+		for _, fi := range fns {
+			fi := fi
+			ast.Inspect(fi.decl.Body, func(n ast.Node) bool {
+				c, ok := n.(*ast.CallExpr)
+				if !ok {
+					return true
+				}
+				sel, ok := c.Fun.(*ast.SelectorExpr)
+				if !ok || guards[sel.Sel.Name] == "" {
+					return true
+				}
+				if inner, ok := sel.X.(*ast.SelectorExpr); !ok || inner.Sel.Name != "bankKeeper" {
+					return true
+				}
+				if hasPanicErr(fi.decl.Body) {
+					sites = append(sites, Site{File: fi.file, Func: fi.decl.Name.Name, Line: fset.Position(c.Pos()).Line, Kind: "callee-error-panics-in-caller",
+						Expr: text(c) + " ## adapter OverwriteBankKeeper." + sel.Sel.Name + " error guards: " + guards[sel.Sel.Name]})
+				} else {
+					wrappers[fi.decl.Name.Name] = sel.Sel.Name
+				}
+				return true
+			})
+		}
+		for _, fi := range fns {
+			fi := fi
+			if !hasPanicErr(fi.decl.Body) {
+				continue
+			}
+			ast.Inspect(fi.decl.Body, func(n ast.Node) bool {
+				c, ok := n.(*ast.CallExpr)
+				if !ok {
+					return true
+				}
+				if m, isW := wrappers[calleeName(c)]; isW {
+					sites = append(sites, Site{File: fi.file, Func: fi.decl.Name.Name, Line: fset.Position(c.Pos()).Line, Kind: "callee-error-panics-in-caller",
+						Expr: text(c) + " ## via " + calleeName(c) + " -> adapter OverwriteBankKeeper." + m + " error guards: " + guards[m]})
+				}
+				return true
+			})
+		}
+	}
+	return sites, nil
 }
